@@ -33,7 +33,15 @@ type ExportedAnalysis struct {
 	// AllowUnused: entries that matched nothing (stale entries)
 	AllowUsed   int
 	AllowUnused []string
+	// AllowDetail: every entry with the number of operations it covered
+	AllowDetail []AllowUse
 	Skipped     []string
+}
+
+// AllowUse is one allow-list entry and how many operations it covered.
+type AllowUse struct {
+	Fn, Kind, Desc, Why string
+	Used                int
 }
 
 // AnalyseWith regenerates the skeletons of every function of the packages in scope
@@ -148,6 +156,7 @@ func AnalyseDerived(repo string, scope map[string]func(file string) bool, allowT
 	}
 	for _, e := range al.entries {
 		res.AllowUsed += e.used
+		res.AllowDetail = append(res.AllowDetail, AllowUse{e.fn, e.kind, e.desc, e.why, e.used})
 		if e.used == 0 {
 			res.AllowUnused = append(res.AllowUnused, e.fn+" "+e.kind+" "+e.desc)
 		}
